@@ -144,10 +144,7 @@ class BaseCollection(BaseDisplayRepr):
     def children(self, children):
         """Set Collection children."""
         # pylint: disable=protected-access
-        for child in self._children:
-            child._parent = None
-        self._children = []
-        self.add(*children, override_parent=True)
+        self._replace_children(list(self._children), children)
 
     @property
     def children_all(self):
@@ -163,15 +160,8 @@ class BaseCollection(BaseDisplayRepr):
     def sources(self, sources):
         """Set Collection sources."""
         # pylint: disable=protected-access
-        new_children = []
-        for child in self._children:
-            if child in self._sources:
-                child._parent = None
-            else:
-                new_children.append(child)
-        self._children = new_children
         src_list = format_obj_input(sources, allow="sources")
-        self.add(*src_list, override_parent=True)
+        self._replace_children(list(self._sources), src_list)
 
     @property
     def sources_all(self):
@@ -187,15 +177,8 @@ class BaseCollection(BaseDisplayRepr):
     def sensors(self, sensors):
         """Set Collection sensors."""
         # pylint: disable=protected-access
-        new_children = []
-        for child in self._children:
-            if child in self._sensors:
-                child._parent = None
-            else:
-                new_children.append(child)
-        self._children = new_children
         sens_list = format_obj_input(sensors, allow="sensors")
-        self.add(*sens_list, override_parent=True)
+        self._replace_children(list(self._sensors), sens_list)
 
     @property
     def sensors_all(self):
@@ -211,20 +194,34 @@ class BaseCollection(BaseDisplayRepr):
     def collections(self, collections):
         """Set Collection collections."""
         # pylint: disable=protected-access
-        new_children = []
-        for child in self._children:
-            if child in self._collections:
-                child._parent = None
-            else:
-                new_children.append(child)
-        self._children = new_children
         coll_list = format_obj_input(collections, allow="collections")
-        self.add(*coll_list, override_parent=True)
+        self._replace_children(list(self._collections), coll_list)
 
     @property
     def collections_all(self):
         """An ordered list of all collection objects in the collection tree."""
         return check_format_input_obj(self, "collections")
+
+    def _replace_children(self, old_children, new_children):
+        """Replace the given current children by new ones. When the new children
+        are rejected, the previous state is restored before the error is raised."""
+        # pylint: disable=protected-access
+        all_children = self._children
+        for child in old_children:
+            child._parent = None
+        self._children = [
+            child
+            for child in all_children
+            if not any(child is old for old in old_children)
+        ]
+        try:
+            self.add(*new_children, override_parent=True)
+        except Exception:
+            self._children = all_children
+            for child in old_children:
+                child._parent = self
+            self._update_src_and_sens()
+            raise
 
     # dunders
     def __iter__(self):
@@ -327,24 +324,30 @@ class BaseCollection(BaseDisplayRepr):
             typechecks=True,
         )
 
-        # assign parent
-        for obj in obj_list:
+        # validate all inputs before assigning any parent, so that a rejected
+        # call leaves the collection tree unchanged
+        for ind, obj in enumerate(obj_list):
             if isinstance(obj, Collection):
                 # no need to check recursively with `collections_all` if obj is already self
                 if obj is self or self in obj.collections_all:
                     raise MagpylibBadUserInput(
                         f"Cannot add {obj!r} because a Collection must not reference itself."
                     )
-            if obj._parent is None:
-                obj._parent = self
-            elif override_parent:
-                obj._parent.remove(obj)
-                obj._parent = self
-            else:
+            if obj._parent is not None and not override_parent:
                 raise MagpylibBadUserInput(
                     f"Cannot add {obj!r} to {self!r} because it already has a parent.\n"
                     "Consider using `override_parent=True`."
                 )
+            if any(obj is other for other in obj_list[:ind]):
+                raise MagpylibBadUserInput(
+                    f"Cannot add {obj!r} to {self!r} more than once."
+                )
+
+        # assign parent
+        for obj in obj_list:
+            if obj._parent is not None:
+                obj._parent.remove(obj)
+            obj._parent = self
 
         # set attributes
         self._children += obj_list
